@@ -1416,6 +1416,24 @@ def args_reaching(unit, fn, target_method, target_arg, depth=2, _seen=None):
     return out
 
 
+def callees_transitive(unit, node, depth=2, _seen=None):
+    """callee paths reachable from the calls below `node`, following same-crate functions up to `depth` levels (helper extraction tolerant)"""
+    _seen = _seen if _seen is not None else set()
+    out = []
+    for x in calls_in(node):
+        p_ = callee(x) or ""
+        if not p_:
+            continue
+        out.append(p_)
+        np_ = norm_path(p_)
+        if depth > 0 and np_.startswith(unit.crate + "::") and np_ not in _seen:
+            cal = unit.norm.get(np_)
+            if cal and "hir" in cal:
+                _seen.add(np_)
+                out += callees_transitive(unit, fn_body(cal), depth - 1, _seen)
+    return out
+
+
 class SubCheck:
     """Run another property's rule module inside a check, keeping only some of its rules under a new rule id."""
 
